@@ -575,10 +575,71 @@ func runC12(l *evlog.Log, c *evlog.Case, cs *c12Case, idx int) {
 		n := len(taps[len(taps)-1].IssuedCIDs[wiretap.S2C])
 		w.Wire.Unlock()
 		l.Max("max:connection_ids_issued_by_server", int64(n))
-		if cs.QUICID != "" && len(quicworld.QUICIDs[cs.QUICID].Fingerprint) > 0 && n == 0 && adv.CIDLimit > 1 {
-			// zero-length client connection IDs: nothing to issue towards the client, but the server issues its own
-		}
 		verified = int64(n)
+		// The in-tree server stops at its own cap.  A peer that uses the advertised limit to the full: further
+		// NEW_CONNECTION_ID frames (forged on the server's behalf with the connection's 1-RTT keys) until
+		// exactly `limit` IDs are active, then a rotation that is legal at the limit (RFC 9000 5.1.1): one more
+		// ID whose Retire Prior To retires the lowest active one.  None of it may raise a local error.
+		limit := uint64(adv.CIDLimit)
+		if limit < 2 {
+			limit = 2 // the default when the parameter is absent
+		}
+		tap := taps[len(taps)-1]
+		w.Wire.Lock()
+		var maxSeq, lowest uint64
+		retired := tap.RetiredSeqs[wiretap.C2S]
+		for seq := range tap.IssuedCIDs[wiretap.S2C] {
+			maxSeq = max(maxSeq, seq)
+		}
+		for retired[lowest] {
+			lowest++
+		}
+		active := maxSeq + 1 - uint64(len(retired))
+		cidLen := len(tap.ServerSCID)
+		w.Wire.Unlock()
+		if cidLen == 0 || active > limit {
+			break
+		}
+		mkCID := func(seq uint64) ([]byte, [16]byte) {
+			cid := make([]byte, cidLen)
+			var tok [16]byte
+			for i := range cid {
+				cid[i] = byte(0xA0 + seq + uint64(i)*7)
+			}
+			for i := range tok {
+				tok[i] = byte(seq*13 + uint64(i))
+			}
+			return cid, tok
+		}
+		var payload []byte
+		next := maxSeq + 1
+		for ; active < limit; active++ {
+			cid, tok := mkCID(next)
+			payload = append(payload, wiretap.NewConnectionIDFrame(next, 0, cid, tok)...)
+			next++
+		}
+		// the genuine server must not see the client's reaction to packets it never sent (it would close the
+		// connection for an acknowledgement of an unsent packet): from here on nothing reaches it
+		w.Router.SetBlackhole(wiretap.C2S, true)
+		inject := func(payload []byte, what string) bool {
+			pkt, err := tap.ForgeShort(wiretap.S2C, payload)
+			if err != nil {
+				viol("harness|forge", "%v", err)
+				return false
+			}
+			w.Router.Inject(wiretap.S2C, quicworld.ServerAddr, quicworld.ClientAddr, pkt, 0)
+			time.Sleep(100 * time.Millisecond)
+			return check(what)
+		}
+		if len(payload) > 0 && !inject(payload, fmt.Sprintf("NEW_CONNECTION_ID frames up to sequence number %d: %d active connection IDs, advertised limit %d", next-1, limit, limit)) {
+			return
+		}
+		cid, tok := mkCID(next)
+		if !inject(wiretap.NewConnectionIDFrame(next, lowest+1, cid, tok), fmt.Sprintf("NEW_CONNECTION_ID(seq %d, Retire Prior To %d) with %d active connection IDs, advertised limit %d", next, lowest+1, limit, limit)) {
+			return
+		}
+		l.Count("cid_limit_used_to_the_full", 1)
+		verified = int64(limit)
 	case "datagram":
 		if adv.Datagram == 0 {
 			// not advertised: the server must not be able to send any; nothing to exercise
